@@ -1169,7 +1169,7 @@ def simplify_op(prop, op):
 
 
 def tiers(prop):
-    return {"quick": 12000, "thorough": 400000}
+    return {"quick": 16000, "thorough": 400000}
 
 
 def legs(prop, tier):
